@@ -997,32 +997,44 @@ const STREAM_FIRST_SIZES: [usize; 16] = [0, 1, 9, 8191, 8192, 32767, 32768, 3276
 /// max bytes the reader hands out per poll (0 = everything at once, a plain slice)
 const STREAM_CHUNKS: [usize; 5] = [0, 1, 7, 4096, 65_537];
 
-fn stream_frame(idx: usize, size: usize) -> (u8, i16, u8, Vec<u8>, Vec<u8>) {
+/// header fields and body bytes of frame `idx` of a stream; the body is written straight into `out`
+fn stream_frame_into(idx: usize, size: usize, out: &mut Vec<u8>) -> (u8, i16, u8, usize) {
     let ops = [0x08u8, 0x00, 0x06, 0x0C, 0x02, 0x10];
     let opcode = ops[idx % ops.len()];
     let flags = [0u8, 0x02, 0x08, 0x0e][idx % 4];
     let stream = [0i16, 1, -1, 32767, -32768][idx % 5].wrapping_add(idx as i16);
+    out.push(0x84);
+    out.push(flags);
+    out.extend_from_slice(&stream.to_be_bytes());
+    out.push(opcode);
+    out.extend_from_slice(&(size as u32).to_be_bytes());
+    let start = out.len();
     // position- and frame-dependent content: a read that starts or ends in the wrong place cannot match
-    let body: Vec<u8> = (0..size).map(|i| ((i as u32).wrapping_mul(2654435761).wrapping_add(idx as u32 * 97) >> 13) as u8).collect();
-    (flags, stream, opcode, body.clone(), frames::plain_frame(opcode, flags, stream, &body))
+    out.extend((0..size).map(|i| ((i as u32).wrapping_mul(2654435761).wrapping_add(idx as u32 * 97) >> 13) as u8));
+    (flags, stream, opcode, start)
 }
 
 /// Decode `sizes.len()` concatenated frames by repeated `read_response_frame` calls on one reader.
 fn stream_case(sizes: &[usize], chunk: usize) -> Result<(), (String, String)> {
     use scylla_cql::frame::read_response_frame;
-    let mut all = Vec::new();
+    let mut all = Vec::with_capacity(sizes.iter().sum::<usize>() + 9 * sizes.len());
     let mut want = Vec::new();
     for (i, &sz) in sizes.iter().enumerate() {
-        let (flags, stream, opcode, body, frame) = stream_frame(i, sz);
-        all.extend_from_slice(&frame);
-        want.push((flags, stream, opcode, body));
+        let (flags, stream, opcode, start) = stream_frame_into(i, sz, &mut all);
+        want.push((flags, stream, opcode, start, sz));
     }
     let mut slice_rd: &[u8] = &all;
     let mut chunk_rd = decode::ChunkReader { data: &all, chunk: chunk.max(1), pending_next: false };
-    for (i, (flags, stream, opcode, body)) in want.iter().enumerate() {
+    for (i, (flags, stream, opcode, start, sz)) in want.iter().enumerate() {
+        let body = &all[*start..*start + *sz];
         let got = if chunk == 0 { decode::block_on(read_response_frame(&mut slice_rd)) } else { decode::block_on(read_response_frame(&mut chunk_rd)) };
         let (params, op, b) = match got {
             None => return Err(("stream:never-completes".into(), format!("frame {i}: the read future never completed"))),
+            // a frame too large for the decoder may be refused - but only the first oversize one, and then the stream ends there
+            Some(Err(e)) if *sz > (64 << 20) => {
+                let _ = e;
+                return Ok(());
+            }
             Some(Err(e)) => return Err(("stream:error-on-well-formed-stream".into(), format!("frame {i} of {sizes:?}: {e}"))),
             Some(Ok(x)) => x,
         };
@@ -1232,6 +1244,7 @@ fn main() {
         Random(u64),
         Stream,
         ClassFuzz(usize),
+        StreamHuge,
         VectorNest,
         TableSpec,
     }
@@ -1259,6 +1272,7 @@ fn main() {
     units.insert(0, Unit::TableSpec); // sequential, one child per case: started first so that it overlaps with everything else
     units.push(Unit::VectorNest);
     units.push(Unit::Stream);
+    units.insert(1, Unit::StreamHuge);
     for t in 0..frames::class_templates().len() {
         units.push(Unit::ClassFuzz(t));
     }
@@ -1280,6 +1294,7 @@ fn main() {
             Unit::BadClass => only == "badclass",
             Unit::Random(_) => only == "random",
             Unit::Stream => only == "stream",
+            Unit::StreamHuge => only == "streamhuge",
             Unit::ClassFuzz(_) => only == "classfuzz",
             Unit::VectorNest => only == "vectornest",
             Unit::TableSpec => only == "tablespec",
@@ -1302,6 +1317,7 @@ fn main() {
             Unit::BadClass => "badclass",
             Unit::Random(_) => "random",
             Unit::Stream => "stream",
+            Unit::StreamHuge => "streamhuge",
             Unit::ClassFuzz(_) => "classfuzz",
             Unit::VectorNest => "vectornest",
             Unit::TableSpec => "tablespec",
@@ -1371,6 +1387,16 @@ fn main() {
             Unit::BadClass => badclass_cases(&mut cases),
             Unit::Random(k) => random_cases(seed.wrapping_mul(1000).wrapping_add(k), 10_000, &mut cases),
             Unit::Stream => run_stream_cases(oref.r, &stream_cases(thorough)),
+            Unit::StreamHuge => {
+                // one frame above 256 MiB followed by a small one, in a child of its own (no allocation cap there: the stream
+                // children only compare what comes back); both frames must come back exactly, or the first be refused
+                let t = std::time::Instant::now();
+                run_stream_cases(oref.r, &[(vec![(256 << 20) + 16, 9], 0)]);
+                if thorough {
+                    run_stream_cases(oref.r, &[(vec![(256 << 20) + 16, 40000, 9], 65_537)]);
+                }
+                oref.r.note("stream_huge_frame_wall_ms", json!(t.elapsed().as_millis() as u64));
+            }
             Unit::ClassFuzz(t) => classfuzz_cases(t, if thorough { 5 } else { 4 }, &mut cases),
             Unit::VectorNest => vector_nest_cases(&mut cases),
             Unit::TableSpec => table_spec_cases(thorough, &mut cases),
@@ -1402,7 +1428,7 @@ fn main() {
     if unrep > 0 && r.args.extra_value("--only").is_none() {
         vcore::machinery_error(&format!("{unrep} fatal outcomes did not reproduce when the case was re-run alone"));
     }
-    r.set_rule("E-ENUM with deviation bounding. 0 deviations: corpus of well-formed frames of every response kind (ERROR all 19 codes with extras, READY, AUTHENTICATE, SUPPORTED, RESULT void/rows/set_keyspace/prepared/schema_change, EVENT all kinds, AUTH_CHALLENGE/SUCCESS; rows over a depth-2 type alphabet incl. class-string forms and vectors, every metadata flag combination, 0..2 rows, cached-metadata twin for no_metadata) x extension subsets x {none, LZ4, Snappy} x {matches, literal-only} x feature combinations (quick: 4; thorough: all 16), decoded through read_response_frame -> parse_response_body_extensions -> ResponseV2::deserialize (+ legacy Response for events) -> deserialize_metadata -> rows as raw cells, as Row/CqlValue and as every typed tuple of the target alphabet that passes type_check; decoded text must equal the text derived from the cqlref model. 1 deviation: every stream truncation, every body truncation with consistent header, every length/count/flag/id field x {0,1,-1,-2,+1,-1,0x7fff,0xffff,i32::MAX,i32::MIN, bit flips, all type ids / result kinds / opcodes / error codes}, header fields, every consistently shortened cell value (each prefix of each cell, length prefix adjusted), the iterator API of ListlikeIterator / MapIterator / VectorIterator / UdtIterator targets (nth(k) for k in 0..=len+2 after 0..3 next() calls, size_hint, last, count, skip, step_by on a fresh iterator each) whenever typed targets are on, every offset of the rows content x boundary 4-byte / 8-byte / 1-byte values (counts and lengths inside cell values, extreme scalars; typed targets on), damaged compressed streams (every cut, every byte x 4 values, announced length), bad class strings, class-string grammar holes (UDT keyspace / hex type name / hex field names / nested parameters / hex prefix / identifiers / vector dimension: 15 templates x every string of length 0..4 (thorough 0..5) over {hex digits, non-hex ASCII, '_', '.', 2-/3-/4-byte UTF-8 alphanumerics} + invalid UTF-8), nested fixed-size vectors (6 leaf types x depth 1..8 x dimension {0,1,2,255,65535,65536,2^31-1}, cells null/empty/short/long, typed targets), metadata of {1,100,10000,30000} columns x keyspace/table names of {1,255,4096,65535} bytes x global / per-column table spec in Rows and Prepared, type nesting 1e2..1e6 (binary) and 4..7000 (class strings). 2 deviations: field pairs (quick: same region or adjacent, reduced value alphabet; thorough: same region at any distance or any two fields <= 12 apart, full alphabet) and field mutation + body truncation right after the field / right before the end; thorough also repeats the single deviations under 6 feature sets with typed targets. Two-column rows over ordered pairs of the type alphabet (quick: a third; thorough: all). Stream level: sequences of 1-3 well-formed frames back to back in one reader, first-frame body sizes {0,1,9,8191,8192,32767,32768,32769,40000,49152,65535,65536,65537,100000,131073,300001}, reader handing out {everything, 1, 7, 4096, 65537} bytes per poll with Pending in between, decoded by repeated read_response_frame: every (params, opcode, body) equals what was encoded, in order, the reader is exhausted exactly at the end and one more read is an error. Sampled (labelled): random bodies behind valid headers. Oracle per case in a child process: no panic/abort/signal/stack overflow (2 MiB thread)/more than 4 s of CPU time for one decode; largest single request and peak live bytes above the pre-decode level <= 64 KiB + 256 x frame length (x decompressed body length once a compressed body has been inflated) by a counting allocator that reports before the request is served and refuses > 64 MiB. distinct_nontrivial = round trips that matched + deviations rejected with a clean error.");
+    r.set_rule("E-ENUM with deviation bounding. 0 deviations: corpus of well-formed frames of every response kind (ERROR all 19 codes with extras, READY, AUTHENTICATE, SUPPORTED, RESULT void/rows/set_keyspace/prepared/schema_change, EVENT all kinds, AUTH_CHALLENGE/SUCCESS; rows over a depth-2 type alphabet incl. class-string forms and vectors, every metadata flag combination, 0..2 rows, cached-metadata twin for no_metadata) x extension subsets x {none, LZ4, Snappy} x {matches, literal-only} x feature combinations (quick: 4; thorough: all 16), decoded through read_response_frame -> parse_response_body_extensions -> ResponseV2::deserialize (+ legacy Response for events) -> deserialize_metadata -> rows as raw cells, as Row/CqlValue and as every typed tuple of the target alphabet that passes type_check; decoded text must equal the text derived from the cqlref model. 1 deviation: every stream truncation, every body truncation with consistent header, every length/count/flag/id field x {0,1,-1,-2,+1,-1,0x7fff,0xffff,i32::MAX,i32::MIN, bit flips, all type ids / result kinds / opcodes / error codes}, header fields, every consistently shortened cell value (each prefix of each cell, length prefix adjusted), the iterator API of ListlikeIterator / MapIterator / VectorIterator / UdtIterator targets (nth(k) for k in 0..=len+2 after 0..3 next() calls, size_hint, last, count, skip, step_by on a fresh iterator each) whenever typed targets are on, every offset of the rows content x boundary 4-byte / 8-byte / 1-byte values (counts and lengths inside cell values, extreme scalars; typed targets on), damaged compressed streams (every cut, every byte x 4 values, announced length), bad class strings, class-string grammar holes (UDT keyspace / hex type name / hex field names / nested parameters / hex prefix / identifiers / vector dimension: 15 templates x every string of length 0..4 (thorough 0..5) over {hex digits, non-hex ASCII, '_', '.', 2-/3-/4-byte UTF-8 alphanumerics} + invalid UTF-8), nested fixed-size vectors (6 leaf types x depth 1..8 x dimension {0,1,2,255,65535,65536,2^31-1}, cells null/empty/short/long, typed targets), metadata of {1,100,10000,30000} columns x keyspace/table names of {1,255,4096,65535} bytes x global / per-column table spec in Rows and Prepared, type nesting 1e2..1e6 (binary) and 4..7000 (class strings). 2 deviations: field pairs (quick: same region or adjacent, reduced value alphabet; thorough: same region at any distance or any two fields <= 12 apart, full alphabet) and field mutation + body truncation right after the field / right before the end; thorough also repeats the single deviations under 6 feature sets with typed targets. Two-column rows over ordered pairs of the type alphabet (quick: a third; thorough: all). Stream level: sequences of 1-3 well-formed frames back to back in one reader, first-frame body sizes {0,1,9,8191,8192,32767,32768,32769,40000,49152,65535,65536,65537,100000,131073,300001}, reader handing out {everything, 1, 7, 4096, 65537} bytes per poll with Pending in between, decoded by repeated read_response_frame: every (params, opcode, body) equals what was encoded, in order, the reader is exhausted exactly at the end and one more read is an error; plus one frame of 256 MiB + 16 bytes followed by small frames, in a child of its own without allocation cap (~0.6 GB for about a second): both come back exactly or the big one is refused - never a truncated body followed by frames nobody sent. Sampled (labelled): random bodies behind valid headers. Oracle per case in a child process: no panic/abort/signal/stack overflow (2 MiB thread)/more than 4 s of CPU time for one decode; largest single request and peak live bytes above the pre-decode level <= 64 KiB + 256 x frame length (x decompressed body length once a compressed body has been inflated) by a counting allocator that reports before the request is served and refuses > 64 MiB. distinct_nontrivial = round trips that matched + deviations rejected with a clean error.");
     r.set_exhaustive(true);
     r.assume("row iteration is consumer-driven: the harness pulls at most 4096 rows per iterator and stops at the first error; every step is checked");
     r.assume("the decode runs on a 2 MiB thread (tokio worker default), RLIMIT_AS 2 GiB protects the checker only; verdicts come from the counting allocator");
